@@ -230,7 +230,16 @@ def judge_index(ctx, coords, value, raise_error, attr_step=None):
     from soundevent.arrays import dimensions as D
 
     cvar = xr.Variable("x", coords, attrs={"step": attr_step}) if attr_step is not None else coords
-    arr = xr.DataArray(np.zeros(len(coords)), dims=["x"], coords={"x": cvar})
+    # the queried dimension is one of several, in any position (a spectrogram has three): only its own length matters
+    layout = int(abs(value) * 7 + len(coords)) % 4
+    if layout == 0:
+        arr = xr.DataArray(np.zeros(len(coords)), dims=["x"], coords={"x": cvar})
+    elif layout == 1:
+        arr = xr.DataArray(np.zeros((len(coords), 3)), dims=["x", "channel"], coords={"x": cvar, "channel": [0, 1, 2]})
+    elif layout == 2:
+        arr = xr.DataArray(np.zeros((5, len(coords))), dims=["other", "x"], coords={"x": cvar})
+    else:
+        arr = xr.DataArray(np.zeros((2, len(coords), 4)), dims=["a", "x", "b"], coords={"x": cvar, "b": [0.0, 0.5, 1.0, 1.5]})
     spec = {"kind": "index", "coords": _cspec(coords), "value": value, "raise_error": raise_error}
     inside = coords[0] <= value <= coords[-1]
     ctx.mon("get_coord_index.exceptions")
